@@ -22,6 +22,7 @@
 #include <atomic>
 #include <thread>
 #include <utility>
+#include "celma/common/detail/verif_hook.hpp"
 
 
 namespace celma { namespace common {
@@ -68,6 +69,12 @@ public:
    ManagedThread& operator =( ManagedThread&&) = delete;
 
 private:
+#ifdef CELMA_VERIF
+   /// Observation point for verification harnesses: The initialiser of this
+   /// member runs after the base class constructor and before the
+   /// initialisation of \c mActive.
+   bool  mVerifPoint = []() { CELMA_VERIF_POINT( "managed_thread.ctor.before_flag_init"); return true; }();
+#endif
    /// Flag, set by the thread before the thread function is executed, cleared
    /// when the thread function returnes, i.e. finished its work.
    std::atomic< bool>  mActive{ false};
@@ -94,6 +101,7 @@ template< class Function, class... Args>
                       flag->store( false, std::memory_order_release);
                    },
                    std::forward< Args>( args)...));
+   CELMA_VERIF_POINT( "managed_thread.ctor.thread_started");
 } // ManagedThread::ManagedThread
 
 
